@@ -6,6 +6,7 @@ exit status and the eight non_compliant collections of the real `reuse lint --js
 
 import itertools
 import json
+import os
 import shutil
 
 from .. import trees
@@ -107,6 +108,15 @@ def compare(exp, obs, res, recipe, r):
 def add_extras(case, recipe, root, exp, res):
     """Compliant extras that need a specific layout to go wrong: Git-ignored files next to covered ones in an untracked
     directory, and nested closest REUSE.toml files that split copyright and licensing between them."""
+    if case["k"] % 3 == 1:
+        # symbolic links are never covered files, whatever they point at: a file, a directory, nothing at all, themselves
+        (root / "links").mkdir(exist_ok=True)
+        os.symlink("no-such-target.py", root / "links" / "dangling.py")
+        os.symlink("/nonexistent/absolute/target", root / "dangling_abs")
+        os.symlink("loop_b", root / "links" / "loop_a")
+        os.symlink("loop_a", root / "links" / "loop_b")
+        os.symlink("..", root / "links" / "up")
+        res.cell("extra:symlinks-dangling-and-loops")
     provided = [x["id"] for x in recipe["licenses"] if x["id"] in exp["used_licenses"] and x["id"] in trees.spdx_lists()["all"]
                 and not trees.spdx_lists()["all"][x["id"]] and not x.get("noext")]
     if not provided:
